@@ -209,7 +209,7 @@ func c06(w *core.World, r *core.Report) {
 			for f.Parent() != nil {
 				f = f.Parent()
 			}
-			return f.Pkg != nil && f.Pkg.Pkg.Path() == typesPkg
+			return f.Pkg != nil && core.PkgPath(f) == typesPkg
 		}
 		for len(work) > 0 {
 			f := work[0]
@@ -258,7 +258,7 @@ func c06(w *core.World, r *core.Report) {
 	// (f) what Success() changes is what Done() looks at: a method of package datastore/types that writes a field of
 	// its receiver has a pointer receiver (with a value receiver the write goes to the method's own copy)
 	for _, f := range w.RepoFns {
-		if f.Pkg == nil || f.Pkg.Pkg.Path() != core.Module+"/pkg/datastore/types" || f.Parent() != nil {
+		if f.Pkg == nil || core.PkgPath(f) != core.Module+"/pkg/datastore/types" || f.Parent() != nil {
 			continue
 		}
 		for _, st := range lostReceiverWrites(f) {
@@ -349,7 +349,7 @@ func c06(w *core.World, r *core.Report) {
 func ruleTryLockPair(w *core.World, r *core.Report) {
 	r.Rule("TRYLOCK-PAIR", 3, "every sync.Mutex.TryLock in pkg/datastore: the failure edge returns ErrDatastoreLocked, and on the success edge 'defer Unlock()' of the same mutex field is registered before any other call. Decides: no path keeps dmutex after the RPC returned.")
 	for _, f := range w.RepoFns {
-		if f.Pkg == nil || f.Pkg.Pkg.Path() != core.Module+"/pkg/datastore" {
+		if f.Pkg == nil || core.PkgPath(f) != core.Module+"/pkg/datastore" {
 			continue
 		}
 		for _, c := range core.OwnCallsTo(f, "sync.Mutex.TryLock") {
